@@ -553,7 +553,17 @@ func genNsecCase(r *vlib.R, emit func(string)) int {
 			var ds [][2]name
 			for i := 0; i < 1+r.Intn(2); i++ {
 				var o name
-				switch k := r.Intn(6); {
+				switch k := r.Intn(8); {
+				case k >= 6 && len(qq) > 1:
+					// a textual suffix of the question that starts in the MIDDLE of a label
+					// (sub.example. for www.notsub.example.): fewer labels, not an ancestor
+					idx := 1 + r.Intn(len(qq)-1)
+					l := qq[idx]
+					if len(l) >= 2 {
+						o = append(name{l[1+r.Intn(len(l)-1):]}, qq[idx+1:]...)
+					} else {
+						o = append(name{"x" + l}, qq[idx+1:]...)
+					}
 				case k < 3 && len(qq) > 1:
 					o = qq.suffix(1 + r.Intn(len(qq)-1))
 				case k == 3:
